@@ -217,6 +217,30 @@ claim(
 NA_REASONS: dict[str, str] = {}
 
 
+
+# clauses added after the fourth round of independently seeded changes (DESIGN.md 11.14); appended to the claim text of each property
+EXTRA = {
+    "C01": "Also: a FlattenSentinel never carries layout-only nodes into a statement list (one named exception), and no metadata lookup (scope, position) is made for a node the transformer has just built.",
+    "C02": "Also: where an import is scheduled under a flag, every definition of the flag reaches the scheduling guard.",
+    "C03": "Also: changesets reach the run-wide record as a list (no keyed / de-duplicating store), and a regular expression that cuts text into diff lines ends a line at LF only.",
+    "C04": "Also: every child process reachable from run() is the read-only semgrep scan or is dry-run guarded.",
+    "C05": "Also: path patterns reach the matcher verbatim (no string-rewriting method on a pattern from the CLI action down to filter_files), and result sets are combined only with the merging operators.",
+    "C06": "Also: every match_location override constrains columns on each accepting path (named line-unit exceptions), and requested_rules is written only in constructors.",
+    "C07": "Also: a leave_ hook does not pre-filter on the shape of original_node's child while deciding on the same child of updated_node, and no transformer gives up by a pass/work budget.",
+    "C08": "Also: a non-atomic node is never replaced by one of its sub-expressions without taking over its parentheses; the with-extent of fix-file-resource-leak is a running maximum over all names; sql-parameterization cuts at the last quote before and the first quote after the parameter.",
+    "C09": "Also: the package stores shared by all codemods of a run are read live (shared with C14).",
+    "C10": "Also: the semgrep command line carries no option that turns an unparsable target into a failing exit status.",
+    "C11": "Also: no per-file data is stored on an object shared by the workers (pipeline, codemod, detector), and a sort key that is a single projection of the element counts as unordered.",
+    "C12": "Also: a one-shot iterator is consumed at most once on any path; a zero-based SARIF index is never tested by truthiness; dict.update is not used to combine result sets.",
+    "C13": "Also: a transformer that enables repeated libcst passes does not itself add or remove statement lines.",
+    "C15": "Also: the apply loop follows the sequence the report is compiled from, and ChangeSet constructions are followed through single-return helper methods.",
+    "C16": "Also: no registered transformer rewrites by pattern over a subtree (libcst.matchers.replace).",
+    "C17": "Also: only an empty project or an empty selection may end apply_codemods before the loop.",
+    "C18": "Also: visit_Module prunes a file only by its path, never by a pre-check of its content; the codemod's own detector returns a fresh scan.",
+    "C19": "Also: the XML transformer accepts an event without consulting a result location only under `self.results is None`.",
+    "C20": "Also: the SARIF tool detection reads every run of every input (no swallowing handler around the loop), on which the duplicate-tool status depends.",
+}
+
 def main():
     props = [json.loads(l)["id"] for l in (VERIF / "properties.jsonl").read_text().splitlines() if l.strip()]
     checks = []
@@ -232,7 +256,7 @@ def main():
                 "evidence_file": f"evidence/{pid}.json",
                 "replay_cmd_template": f"/venv/bin/python sa/run.py {pid} --replay {{path}}",
                 "engine": "sa",
-                "level_claimed": {"category": "other", "text": c["text"], "design_ref": c["ref"]},
+                "level_claimed": {"category": "other", "text": c["text"] + (" " + EXTRA[pid] if pid in EXTRA else ""), "design_ref": c["ref"]},
                 "level_note": c["note"],
                 "technique": c["technique"],
             }
